@@ -857,6 +857,24 @@ func dirTables(c *an.Ctx, r *runnerRoles, cc *ssa.Function, rule string) {
 				good = false
 			}
 		}
+		// … and the context definition's dir is what was decoded: nothing fills it in between decoding and
+		// buildContext (a default written there — the configuration file's directory, say — pre-empts the
+		// invocation-directory default)
+		for _, fn := range p.Funcs {
+			if !an.InModule(fn) {
+				continue
+			}
+			an.EachInstr(fn, func(in ssa.Instruction) {
+				st, ok := in.(*ssa.Store)
+				if !ok {
+					return
+				}
+				if fa, ok := st.Addr.(*ssa.FieldAddr); ok && an.TypeField(fa) == "contextDefinition.Dir" {
+					good = false
+					c.Bad(rule, an.Short(fn)+":write(contextDefinition.Dir)", st.Pos(), "%s writes the dir of a context definition (%s): a context without dir no longer defaults to the directory taskctl was started in", an.Short(fn), an.FieldProv(st.Val))
+				}
+			})
+		}
 		c.Check(good, rule, an.Short(bc)+":dir-default", bc.Pos(), "a context without dir defaults to the invocation directory", "buildContext does not default an empty dir to the invocation directory")
 	}
 }
